@@ -22,7 +22,9 @@ EXTENDS Integers, Sequences, FiniteSets, TLC
 CONSTANTS D,          \* the integer domain of elements and keys
           MaxArgs,    \* NewIntSet(values ...int): at most this many arguments
           MaxCnt,     \* NewIntMap(data): values 1..MaxCnt
-          MaxOps      \* length bound of explored histories
+          MaxOps,     \* length bound of explored histories (operations after the prefix)
+          Prefix,     \* operations (hist records) applied before the exploration starts: values with shared history
+          AllowNew    \* FALSE: the explored operations are Insert / Union / Inc / Filter only
 
 VARIABLES vals, hist
 vars == <<vals, hist>>
@@ -88,8 +90,21 @@ NewIntMap == \E m \in MapLits : DoNewIntMap(m)
 Inc == \E i \in Idx, k \in D : DoInc(i, k)
 Filter == \E i \in Idx, j \in Idx : DoFilter(i, j)
 
-Init == vals = <<>> /\ hist = <<>>
-Next == Len(hist) < MaxOps /\ (NewIntSet \/ Insert \/ Union \/ NewIntMap \/ Inc \/ Filter)
+\* the value a recorded operation produces from the values before it
+ApplyOp(vs, h) ==
+  CASE h.op = "NewIntSet" -> NewIntSetOp(h.args)
+    [] h.op = "Insert" -> InsertOp(vs[h.a], h.args[1])
+    [] h.op = "Union" -> UnionOp(vs[h.a], vs[h.b])
+    [] h.op = "NewIntMap" -> NewIntMapOp(MapOfFlat(h.args))
+    [] h.op = "Inc" -> IncOp(vs[h.a], h.args[1])
+    [] h.op = "Filter" -> FilterOp(vs[h.a], vs[h.b])
+RECURSIVE ApplyAll(_, _)
+ApplyAll(ops, vs) == IF ops = <<>> THEN vs ELSE ApplyAll(Tail(ops), Append(vs, ApplyOp(vs, Head(ops))))
+
+Init == vals = ApplyAll(Prefix, <<>>) /\ hist = Prefix
+Next == /\ Len(hist) < Len(Prefix) + MaxOps
+        /\ \/ (AllowNew /\ (NewIntSet \/ NewIntMap))
+           \/ Insert \/ Union \/ Inc \/ Filter
 Spec == Init /\ [][Next]_vars
 
 \* ---- properties (C15) ---------------------------------------------------
